@@ -100,8 +100,8 @@ class Backend:
     def p(self, rel):
         return self.base if rel in ("", ".") else posixpath.join(self.base, rel)
 
-    def require(self, cond, assert_id, detail=""):
-        pse.require(cond, assert_id, detail)
+    def require(self, cond, assert_id, detail="", soft=False):
+        pse.require(cond, assert_id, detail, soft)
 
     def note(self, text):
         pass
